@@ -227,8 +227,6 @@ def h_unit_vector(c):
     from symv.api import flat
 
     u = flat(u)
-    if c.mode != "sym":
-        c.assume(abs(sum(a * a for a in u) - 1) < 1e-6)
     c.prove_eq("unit_vector.perpendicular", u[0] * n[0] + u[1] * n[1] + u[2] * n[2], 0)
     c.prove_eq("unit_vector.unit", u[0] * u[0] + u[1] * u[1] + u[2] * u[2], 1)
 
